@@ -235,7 +235,9 @@ def _order(case, V, sit, cnt, keys):
     if timedep:
         _bump(sit, "time_dependent_field")
     cnt[f"min_order_x100_{scheme}"] = min(cnt.get(f"min_order_x100_{scheme}", 10**6), int(obs * 100))
-    if obs < p - 0.3:
+    # the coarsest level may still be outside the asymptotic range (its error can be small by cancellation): the slope over the three finest levels counts too
+    obs_fine = ref.observed_order(errs[1:])
+    if obs < p - 0.3 and not (obs_fine is not None and obs_fine >= p - 0.3):
         V.append(C.viol(f"{scheme}: observed order {obs:.2f} over the ladder dt..dt/8 (errors {['%.3g' % e for e in errs]}), the scheme's order is {p}", **desc))
     keys.add(("order", flow["kind"], scheme, timedep, case["idx"]))
 
